@@ -217,27 +217,49 @@ where
                 client_local.send(item).await.unwrap_or_else(|e| error!("[udp] failed to send inbound msg; error={}", e));
             }
             // local->client|inbound
-            Some(Ok(((content, target), sender))) = local_client.next() => {
+            Some(next) = local_client.next() => {
+                // one datagram that cannot be decoded or relayed is dropped; the loop serves every local sender
+                let ((content, target), sender) = match next {
+                    Ok(item) => item,
+                    Err(e) => {
+                        error!("[udp] discard a local datagram; error={}", e);
+                        continue;
+                    }
+                };
                 let key = new_key(sender, &target);
                 let _key = key.clone();
                 match client_server_cache.entry(key) {
                     Entry::Vacant(entry) => {
                         debug!("[udp] new binding; key={:?}", &_key);
-                        let out = new_out(&target, &context).await?;
-                        let (sink, relay_task) = new_binding(server_addr, client_local_tx.clone(), ((content, target), sender), _key, out, to_inbound_recv, to_outbound_send).await?;
-                        entry.insert(Binding {sink, relay_task});
+                        let binding = async {
+                            let out = new_out(&target, &context).await?;
+                            new_binding(server_addr, client_local_tx.clone(), ((content, target.clone()), sender), _key, out, to_inbound_recv, to_outbound_send).await
+                        };
+                        match binding.await {
+                            Ok((sink, relay_task)) => {
+                                entry.insert(Binding {sink, relay_task});
+                            }
+                            Err(e) => error!("[udp] new binding failed; target={}, error={}", target, e),
+                        }
                     }
                     Entry::Occupied(entry) => {
                         // client->server|outbound
                         let value = entry.into_mut();
                         if value.relay_task.is_finished() {
                             debug!("[udp] retry binding; key={:?}", &_key);
-                            let out = new_out(&target, &context).await?;
-                            let (sink, relay_task) = new_binding(server_addr, client_local_tx.clone(), ((content, target), sender), _key, out, to_inbound_recv, to_outbound_send).await?;
-                            value.sink = sink;
-                            value.relay_task = relay_task;
-                        } else {
-                            value.sink.send(to_outbound_send((content, target), server_addr)).await?;
+                            let binding = async {
+                                let out = new_out(&target, &context).await?;
+                                new_binding(server_addr, client_local_tx.clone(), ((content, target.clone()), sender), _key, out, to_inbound_recv, to_outbound_send).await
+                            };
+                            match binding.await {
+                                Ok((sink, relay_task)) => {
+                                    value.sink = sink;
+                                    value.relay_task = relay_task;
+                                }
+                                Err(e) => error!("[udp] retry binding failed; target={}, error={}", target, e),
+                            }
+                        } else if let Err(e) = value.sink.send(to_outbound_send((content, target), server_addr)).await {
+                            error!("[udp] failed to send outbound msg; error={}", e);
                         }
                     }
                 }
@@ -282,8 +304,8 @@ where
                         .unwrap_or_else(|e| error!("[udp] client*-local send mpsc failed; error={}", e));
                 }
                 Err(e) => {
+                    // a datagram that is refused (undecodable, replayed) is dropped; a broken stream ends by itself
                     error!("[udp] server*-client decode failed; error={}", e);
-                    break;
                 }
             }
         }
